@@ -244,6 +244,44 @@ def deregistration(F, R):
             "a completion message can be consumed without finish_scenario(id) although a collector is present (e.g. for retried attempts): the attempt stays registered")
 
 
+def span_close_bookkeeping(F, R):
+    """The span-close hand-shake can complete: whenever the collector receives the id of a closed span it marks that span's
+    entry as closed — also when the entry already exists (a waiter subscribed first) — on every path of the routine that
+    drains the close notifications.  Otherwise `wait_for_span_close` never resolves and the run never ends."""
+    from . import deep as D
+    cands = []
+    for b in F.crate_bodies():
+        if (b.impl or {}).get("self_adt") != "tracing::Collector" or b.kind not in ("Fn", "AssocFn"):
+            continue
+        for s, t in b.calls(lambda t: callee_is(t, r"UnboundedReceiver.*::try_next$|::try_recv$")):
+            if "span::Id>" in (op_fn(t["func"]) or {}).get("self", "") + (op_fn(t["func"]) or {}).get("full", ""):
+                cands.append(b)
+    cands = list({b.key: b for b in cands}.values())
+    if len(cands) != 1:
+        raise Unverifiable(f"collector routine receiving closed span ids: {len(cands)}")
+    b = cands[0]
+    rows = D.Deep(F, b, opaque=r"retain$", max_paths=400).run()
+    n, bad = 0, None
+    strip = lambda t: strip(t[1]) if isinstance(t, tuple) and t and t[0] in ("ref", "deref", "refto", "conv") else t
+    for p in rows:
+        # closed ids received on this path: try_next results of item type span::Id that the conditions say are Some
+        for a, o in p.conds:
+            if a[0] == "discr" and o == "Some":
+                src = [x for x in D.subterms(a[1]) if x[0] == "call" and re.search(r"try_next$|try_recv$", x[1])]
+                if len(src) != 1:
+                    continue
+                got = ("field", ("as", a[1], "Some"), 0)
+                keyed = [e for e in p.effects if e[0] == "call" and re.search(r"HashMap(::<.*>)?::entry$", e[1]) and len(e[2]) > 1 and strip(e[2][1]) == got]
+                if not keyed:
+                    continue   # the other receiver (its item is a pair, the key a component of it)
+                n += 1
+                ent = ("call", keyed[0][1], keyed[0][2], keyed[0][4])
+                marks = [e for e in p.effects if e[0] == "write" and e[2] == ("const", True) and D.mentions(e[1], lambda y: y == ent)]
+                if not marks:
+                    bad = "a received close notification does not mark its (possibly already existing) entry as closed"
+    R.check(bad is None and n >= 1, "close-marks-entry", b, f"every received close id marks its entry on all {n} paths", bad or "no path receives a close notification")
+
+
 def _dominated_or_guarded(b, a, c):
     """Every path from entry to c passes a, or skips a only through the `None` edge of an Option<Collector>."""
     if b.dominates(a, c):
@@ -423,4 +461,9 @@ def r5(F, R):
     R.floor(3)
 
 
-RULES = [("R1", r1, None), ("R2", r2, None), ("R3", r3, None), ("R4", r4, None), ("R5", r5, None)]
+def r6(F, R):
+    span_close_bookkeeping(F, R)
+    R.floor(1)
+
+
+RULES = [("R1", r1, None), ("R2", r2, None), ("R3", r3, None), ("R4", r4, None), ("R5", r5, None), ("R6", r6, None)]
